@@ -11,7 +11,7 @@ func init() {
 	register(&Prop{
 		ID:         "C04",
 		Title:      "Paginating with any Limit yields the same result as one unpaginated read",
-		Decided:    "page accounting (count, scanned, limit) is arithmetic over run-time values and is NOT decided. Decided are four necessary conditions visible in the code: (R1) ExclusiveStartKey and Limit of the request reach the search and the LastEvaluatedKey of the response is the second result of the search, through conversion only, in all four client sites; (R2) the key handed out as LastEvaluatedKey is built from the last *evaluated* item (the variable assigned on every non-skipped iteration, not only on matches), contains the table's key attributes and, when reading through an index, that index's key attributes, and the incoming start key is rendered with the table's key schema; (R3) resuming must be positional (ordered comparison with the start key, or a search for its position): resuming at the first key *equal* to the start key never resumes once that item has been deleted; (R4) the error of rendering a malformed start key is not discarded (= C13.R2 at that site); (R5) the LastEvaluatedKey a client hands out and the ExclusiveStartKey it takes back pass through the adapters' attribute mappers, and resuming compares key TEXT: every S and N text is carried verbatim in both directions (= C10.R6) – an adapter that normalises a number on the way out hands out a key that matches no stored key, and the next page is empty; (R6) the search loop is left only by exhaustion or by the page limit (= C02.R8): any other early exit is decided per call, so how much a request returns depends on where the page boundaries fall.",
+		Decided:    "page accounting (count, scanned, limit) is arithmetic over run-time values and is NOT decided. Decided are four necessary conditions visible in the code: (R1) ExclusiveStartKey and Limit of the request reach the search and the LastEvaluatedKey of the response is the second result of the search, through conversion only, in all four client sites; (R2) the key handed out as LastEvaluatedKey is built from the last *evaluated* item (the variable assigned on every non-skipped iteration, not only on matches), contains the table's key attributes and, when reading through an index, that index's key attributes, and the incoming start key is rendered with the table's key schema; (R3) resuming must be positional (ordered comparison with the start key, or a search for its position): resuming at the first key *equal* to the start key never resumes once that item has been deleted; (R4) the error of rendering a malformed start key is not discarded (= C13.R2 at that site); (R5) the LastEvaluatedKey a client hands out and the ExclusiveStartKey it takes back pass through the adapters' attribute mappers, and resuming compares key TEXT: every S and N text is carried verbatim in both directions (= C10.R6) – an adapter that normalises a number on the way out hands out a key that matches no stored key, and the next page is empty; (R6) the search loop is left only by exhaustion or by the page limit (= C02.R8): any other early exit is decided per call, so how much a request returns depends on where the page boundaries fall; (R8) nothing is kept between the pages of a read but the confirmed fields (= C01.R12, C03.R10); (R7) index entries are totally ordered in both scan directions (= C02.R1): a resume inside a run of equal index keys finds the run in the same order.",
 		NotDecided: "'at most Limit items per page', 'finitely many pages', absence of duplicates and of losses at page boundaries, boundaries inside runs of equal index keys – all consequences of the counting arithmetic (shouldCountItem / shouldBreakPage / shouldReturnNextKey / GetKeyAt), which no sound static argument in reach bounds. An off-by-one that keeps the code shape is invisible to this check.",
 		Rules: []RuleDef{
 			{ID: "R1", Desc: "start key, limit and last key are plumbed through (T-FLOW)", Run: c04R1},
@@ -40,6 +40,8 @@ func init() {
 				}
 			}},
 			{ID: "R6", Desc: "a page visits every position up to its limit: the search loop is left only by exhaustion or by the page limit (= C02.R8)", Run: aliasRule("R6", c02R8, nil)},
+			{ID: "R8", Desc: "successive pages read no state beyond the confirmed fields of table and index (= C01.R12 + C03.R10): a cache kept between pages must be invalidated by every write", Run: func(e *Engine) { stateModelClosed(e, "R8", func(k string) bool { return k == "core.index" || k == "core.Table" }) }},
+			{ID: "R7", Desc: "the entry list of an index has one total order per direction – ties between equal index keys broken by the primary key in BOTH directions – so that the position a page resumes from is the position the previous page ended at (= C02.R1)", Run: aliasRule("R7", c02R1, nil)},
 		},
 	})
 }
@@ -50,10 +52,10 @@ func c04R1(e *Engine) {
 		in := s.method + "Input."
 		for f, want := range map[string]string{"ExclusiveStartKey": "conv field:" + in + "ExclusiveStartKey", "Limit": "field:" + in + "Limit"} {
 			got := e.queryInputField(s, f)
-			ok := false
+			ok := len(got) > 0
 			for _, o := range got {
-				if strings.TrimPrefix(o, "deref-of ") == want {
-					ok = true
+				if strings.TrimPrefix(o, "deref-of ") != want {
+					ok = false // sometimes the request's value, sometimes something else (a default, a "fits in one page" shortcut)
 				}
 			}
 			e.check(ok, "R1", construct+":QueryInput."+f, e.ipos(s.call), "QueryInput.%s ← %s", f, strings.Join(got, " | "))
